@@ -356,7 +356,7 @@ fn check(cfg: &Cfg, css: &str, strict: bool) -> Option<(String, String)> {
 const HOSTS: &[&str] = &[":host{width:2rpx;order:{N}}", ":host {margin:calc(1rpx + 2px) 75rpx;order:{N}}", "\n:host\n{ order:{N}; top:-15rpx }"];
 const ORDS: &[&str] = &[".a{width:1rpx;order:{N}}", ".a .b>#x{height:3rpx;order:{N}}", "view{color:blue;order:{N}}", ":root{--w:4rpx;order:{N}}", "#x:hover , .c.d{order:{N};min-width:min(7.5rpx, 1px)}", ":host-context(.d) .e{left:1rpx;order:{N}}"];
 const COMBOS: &[&str] = &[":host .a{color:red;order:{N}}", ":host(.x){top:1rpx;order:{N}}", ":host, .a{left:1rpx;order:{N}}", ":host:hover{color:pink;order:{N}}", ":host>.a{order:{N}}"];
-const WRAPS: &[&str] = &["@media (min-width:1rpx)", "@supports (color:red)", "@layer x", "@container n (min-width:2rpx)", "@supports selector(.c .d)", "@media screen and (max-width:calc(10rpx + 1px))"];
+const WRAPS: &[&str] = &["@media (min-width:1rpx)", "@supports (color:red)", "@layer x", "@container n (min-width:2rpx)", "@supports selector(.c .d)", "@media screen and (max-width:calc(10rpx + 1px))", "@starting-style", "@scope (.c) to (.d)", "@document url(x)", "@STARTING-STYLE"];
 /// the 10 pieces of family A
 const PIECES_A: &[&str] = &[HOSTS[0], HOSTS[1], ORDS[0], ORDS[1], ORDS[2], ORDS[3], COMBOS[0], COMBOS[1], COMBOS[2], COMBOS[3]];
 /// probes of family C
